@@ -8,6 +8,19 @@ Oracle:  (i)   asmload(skool2asm output) == skool2bin image, same addresses, for
          (iii) what #PEEK / #UDG / the parser snapshot show equals the skool2bin (-d) image of the same mode; mode
                "none" is compared through skool2html (asm mode 0).
 Guards (DESIGN.md C04 a-d) are evaluated from what the generator knows about the file it wrote, never from skoolkit.
+
+Findings on the unchanged tree, keyed by mechanism (predicates below; each is generated on purpose in a few per cent
+of the files so that the rest of the workload stays decidable):
+  C04-label-on-inserted-instruction-crashes-asmwriter   AsmWriter.__init__ files labels under instruction.address;
+        an instruction inserted by '>'/'+' (or written without address) has address None, so a label on it
+        ('@rsub=>LABEL:op', or the -c label of an entry that begins with an inserted instruction) makes
+        min(self.labels) raise TypeError as soon as another label exists.
+  C04-data-directive-colon-in-comment   parse_asm_data_directive takes everything before the LAST colon of a
+        @defb/@defs/@defw value for the address, including the "; arbitrary text" the documentation says is ignored:
+        skool2asm/skool2html silently drop the directive, skool2bin -d dies unpacking the int it returns.
+  C04-keep-reaches-inserted-instructions-in-skool2bin   BinWriter hands a line's @keep to every instruction the
+        line's @*sub/@*fix directives insert, SkoolParser only to the instruction in the line: after a relocation
+        skool2asm emits the label (moved address), skool2bin keeps the stale number.
 """
 import os
 import re
@@ -43,7 +56,7 @@ ASSUMPTIONS = [
     'a removed or overwritten instruction carries no directive of its own; a relative jump that no longer reaches its target after relocation is '
     'outside the property (skipped)',
 ]
-MIN_NONTRIVIAL = {'quick': 250, 'thorough': 5000}
+MIN_NONTRIVIAL = {'quick': 100, 'thorough': 3000}
 N_FILES = {'quick': 1500, 'thorough': 40000}
 
 # name, skool2asm argv, skool2bin argv, (asm, fix)
